@@ -250,7 +250,7 @@ func (s *solo) randomStep() {
 		{5, s.stepPeerReturnDeferred}, {3, s.stepPeerDisembargo},
 		{2, s.stepAppBootstrap}, {9, s.stepAppCall}, {7, s.stepAppPipeline}, {6, s.stepAppResolve}, {4, s.stepAppTake},
 		{4, s.stepAppReleaseAnswer}, {3, s.stepAppAddRef}, {4, s.stepAppReleaseHandle}, {2, s.stepAppCancel},
-		{5, s.stepUnblock}, {4, s.macroEmbargo}, {4, s.macroPeerEmbargo}, {3, s.macroGenerationRace}, {1, s.stepNewLocal}, {4, s.macroCancelFailedFinish},
+		{5, s.stepUnblock}, {4, s.macroEmbargo}, {4, s.macroPeerEmbargo}, {3, s.macroGenerationRace}, {1, s.stepNewLocal}, {4, s.macroCancelFailedFinish}, {3, s.macroEarlyFinishRRC},
 	}
 	total := 0
 	for _, d := range defs {
